@@ -452,11 +452,16 @@ func init() {
 	reg("(*sync.RWMutex).Lock", func(m *Machine, th *Thread, fn *ssa.Function, a []Value) (Value, bool) {
 		st := rw(m, a[0].(*Cell))
 		if st.writer || st.readers > 0 {
+			if st.pending == nil {
+				st.pending = map[int]bool{}
+			}
+			st.pending[th.id] = true // a waiting writer excludes new readers
 			return m.block(th, "RWMutex.Lock", func() bool { return !st.writer && st.readers == 0 })
 		}
 		if !m.schedGate(th, "Lock") {
 			return nil, false
 		}
+		delete(st.pending, th.id)
 		st.writer = true
 		m.acquire(th, st.vcW)
 		m.acquire(th, st.vcR)
@@ -482,8 +487,8 @@ func init() {
 	})
 	reg("(*sync.RWMutex).RLock", func(m *Machine, th *Thread, fn *ssa.Function, a []Value) (Value, bool) {
 		st := rw(m, a[0].(*Cell))
-		if st.writer {
-			return m.block(th, "RWMutex.RLock", func() bool { return !st.writer })
+		if st.writer || len(st.pending) > 0 {
+			return m.block(th, "RWMutex.RLock", func() bool { return !st.writer && len(st.pending) == 0 })
 		}
 		if !m.schedGate(th, "RLock") {
 			return nil, false
